@@ -49,6 +49,11 @@ where
     .await
 }
 
+/// `async_std::task::sleep` over simulated time.
+pub async fn sleep(dur: Duration) {
+    crate::world::sleep_ns(dur.as_nanos().min(u64::MAX as u128) as u64).await
+}
+
 // ----- tasks ----------------------------------------------------------------
 
 struct JoinState<T> {
